@@ -12,9 +12,13 @@ TEXT = dict(
           "average-curve weights are the increments of F^n resp. 1-(1-F)^n (telescoping), the U-curve is the mean over all "
           "subsets of size min(n,N) of their best element (with the model's multiplicative binomial proved equal to Nat.choose), "
           "V weights sum to 1, the naive curve is the running best of the first min(n,N) observations and monotone in n, the "
-          "quantile curve is ppf of the level and monotone in it. Tied to the code by exact-rational differential execution of all "
+          "quantile curve is ppf of the level and monotone in it and in n; v_tuning_curve = average_tuning_curve for every finite "
+          "unweighted sample in any order, ties included, both directions (also for the very terms the driver evaluates); the "
+          "average curve is monotone in n in the direction of optimisation (Abel summation; real 0<n<=m); min/max duality of the "
+          "average curve under negation, and of the quantile curve (level q against 1-q) away from ties, with a kernel-checked "
+          "witness that it fails at a tie. Tied to the code by exact-rational differential execution of all "
           "five curves (integer n exact; real n with 50-digit powers of exact levels), both minimize settings, n>N, samples >1000.",
-    note="Proved on the model in exact arithmetic; NOT yet proved: v_tuning_curve = average_tuning_curve as a theorem (compared "
-         "exactly instead), monotonicity in n of the average curve, min/max duality under negation (compared). Float rounding "
-         "is compared at the property's 1e-9*max|obs|.",
+    note="Proved on the model in exact arithmetic, every clause of the property. Compared, not proved: samples with +-inf observations "
+         "for v == average (compared exactly per sample), real n (50-digit powers of exact levels), float rounding at the property's "
+         "1e-9*max|obs|.",
 )
